@@ -1,4 +1,5 @@
 CONSTANTS
+  ProtoIdx = {}
   Literals <- LitQuick
   ExploreOps <- ExploreCore
   ProbeOps <- None
